@@ -1,0 +1,12 @@
+//go:build verif
+
+// Contracts for the verification harness in /verif (comment-only; no declarations).
+package object
+
+// SetCondition upserts a condition into status.conditions: every successful call writes the (new) list back into `status`.
+// (unstructured.NestedSlice returns a deep copy: changing an element of that copy alone changes nothing.)
+//@ func SetCondition(status, condition) (err)
+//@   requires status != nil && condition != nil
+//@   safety C13,C07
+//@   at SetNestedField(m, v, path) [C07]: m == status && len(path) == 1 && path[0] == "conditions"
+//@   ensures [C07] err == nil ==> count(SetNestedField) == 1
